@@ -283,8 +283,18 @@ def install(ai: AbsInt, ctx, clip_model=True):
         return AList([VLQ(v)], 'list')
     ai.summaries['mido/midifiles/meta.py::encode_variable_int'] = s_encode_vlq
 
+    def unwrap(interp, f):
+        """A file wrapper object (class with read/tell and a `file` attribute holding the real file, e.g. DebugFileWrapper): the
+        summaries below act on the wrapped file.  That the wrapper's own read()/tell() are transparent is an obligation of its
+        own (C08 R08.6); the uses are recorded so that rule can see the wrapper was in play."""
+        if isinstance(f, AObj) and f.cls is not None and isinstance(f.attrs.get('file'), AFile) \
+                and interp.p.lookup_method(f.cls, 'read')[1] is not None:
+            interp.wrapped_reads = getattr(interp, 'wrapped_reads', 0) + 1
+            return f.attrs['file']
+        return f
+
     def s_read_vlq(interp, args, kwargs, node):
-        f = args[0]
+        f = unwrap(interp, args[0])
         if not isinstance(f, AFile):
             return Opaque('read_variable_int on non-file')
         if f.pos >= len(f.stream):
@@ -299,7 +309,7 @@ def install(ai: AbsInt, ctx, clip_model=True):
     ai.summaries['mido/midifiles/midifiles.py::read_variable_int'] = s_read_vlq
 
     def s_read_bytes(interp, args, kwargs, node):
-        f, size = args[0], args[1]
+        f, size = unwrap(interp, args[0]), args[1]
         if not isinstance(f, AFile):
             return Opaque('read_bytes on non-file')
         if isinstance(size, int) and size > reference.MAX_MESSAGE_LENGTH:
